@@ -179,7 +179,14 @@ fn check_doc(doc: &str, leg: &str, cfgs: &[(String, Cfg)]) -> CaseResult {
         };
         match &out {
             Outcome::Panic(p) => mk("panic", "panic", p.clone()),
-            Outcome::Err(e) => mk("rejected", "err", format!("well-formed namespaced SVG was rejected: {}", clip(e, 300))),
+            Outcome::Err(e) => {
+                // open finding: the XML library ends a DOCTYPE at an unbalanced '<' .. '>' even inside a comment,
+                // a literal or a PI of the internal subset (class: such a '<' is present AND that is the error)
+                let subset = doc.find("<!DOCTYPE").and_then(|a| doc[a..].find('[').map(|b| a + b)).and_then(|a| doc[a..].find("]>").map(|b| &doc[a + 1..a + b])).unwrap_or("");
+                let inner_lt = subset.match_indices('<').any(|(i, _)| !subset[i..].starts_with("<!ENTITY") && !subset[i..].starts_with("<!--") && !subset[i..].starts_with("<?"));
+                let fam = if e.contains("UnclosedDoctype") && inner_lt { "doctype-with-less-than-in-internal-subset" } else { "err" };
+                mk("rejected", fam, format!("well-formed namespaced SVG was rejected: {}", clip(e, 300)))
+            }
             Outcome::Ok(b) => {
                 oh = hash64(b);
                 match xmlref::parse(b, Mode::Document) {
@@ -297,6 +304,10 @@ fn space_prolog() -> Vec<String> {
             v.push(format!("{dt}{}", wrap(attrs, body)));
             v.push(format!("<?xml version=\"1.0\"?>\n{dt}{}", wrap(attrs, body)));
         }
+    }
+    // '<' inside a comment, a literal or a PI of the internal subset
+    for dt in ["<!DOCTYPE svg [<!-- a < b -->]>", "<!DOCTYPE svg [<!ENTITY e \"a<b\">]>", "<!DOCTYPE svg [<?pi < ?>]>"] {
+        v.push(format!("{dt}{}", wrap("", "<rect/>")));
     }
     // line-ending / whitespace variants inside the root
     for b in ["\r\n  <rect/>\r\n", "\t<rect/>\t\n", "  <rect/>  ", "\n\n\n<rect/>\n\n\n", "<rect\n   a=\"1\"\n   b='2'\n/>"] {
